@@ -1,7 +1,7 @@
 (* C05 — Every emitted message is well-formed MIDI. *)
 From Coq Require Import List NArith ZArith.
 From HIDI Require Import Base.AList Model.Notes Model.Device Model.Parser Model.AnalogF Model.AnalogSpec Proofs.DeviceBasics Proofs.DeviceWf
-  Proofs.ParserDevice Proofs.AnalogGrid Proofs.AnalogProofs Proofs.AnalogGeneral Proofs.AnalogGeneral3.
+  Proofs.ParserDevice Proofs.AnalogGrid Proofs.AnalogProofs Proofs.AnalogGeneral Proofs.AnalogGeneral3 Proofs.AnalogMachine.
 Import ListNotations.
 Open Scope N_scope.
 
@@ -76,3 +76,28 @@ Theorem C05_general_axis_messages : forall g raw,
   cfg_dom g -> (q_mn g <= raw <= q_mx g)%Z -> forallb wf_msgb (axis_msgs g raw) = true.
 Proof. exact axis_msgs_wf. Qed.
 Print Assumptions C05_general_axis_messages.
+
+(* ---- C05 for the FULL machine (float layer Model/AnalogF.v + state machine): this closes the partiality of C05_wf ("the sample
+   bounds are a hypothesis") for configurations in the domain [machine_dom c fc ai] (Proofs/AnalogMachine.v): for every axis
+   entry the device can look up in any mapping, the controller numbers are below 128 (C05_parser_axis_in_range), the axis'
+   reported range satisfies -2^31 <= min <= 0 < max < 2^31 with deadzone_at_center only for min = 0 (an axis without absinfo
+   reads as (0, 0) and is NOT in the domain), and a deadzone is configured for it and is a finite float in [0, 1 - 2^-10].
+   For EVERY history of key events (any values), SYN events and axis events whose value lies in the reported range of its
+   axis ([fev_in_range]; axes that no mapping mentions are unrestricted): the device never reaches the "no deadzone
+   configured" panic ([frun] = Some ...), every message emitted while running and during the disconnect clean-up is
+   well-formed, and the current channel stays below 16.
+   Outside the domain - non-finite deadzones or deadzones above 1 - 2^-10 (the parser accepts them), axes without absinfo,
+   raw values outside the reported range - the run-time monitor remains the only check. *)
+Theorem C05_machine : forall c fc ai h,
+  wf_defaults c -> machine_dom c fc ai -> Forall (fev_in_range c ai) h ->
+  exists st outs, frun c fc ai h = Some (st, outs) /\
+    Forall wf_msg (all_midi outs ++ snd (cleanup c (fst st))) /\ channel (fst st) < 16.
+Proof. exact machine_wf. Qed.
+Print Assumptions C05_machine.
+
+(* the hypotheses are satisfiable: two mappings, a bidirectional controller pair on a 16-bit stick, a flipped pitch bend with
+   deadzone_at_center on an 8-bit trigger, a history that moves both, switches the mapping and touches an unmapped axis *)
+Example C05_machine_domain_inhabited :
+  wf_defaults ex_config /\ machine_dom ex_config ex_fconfig ex_absinfos /\
+  Forall (fev_in_range ex_config ex_absinfos) ex_history.
+Proof. exact (conj (proj1 ex_machine_dom) (conj (proj2 ex_machine_dom) ex_history_in_range)). Qed.
